@@ -1,6 +1,6 @@
 ---------------------------- MODULE MC_AsyncService ----------------------------
 EXTENDS AsyncService, Json
-CONSTANTS MaxClock, MaxWire, MaxMsgs
+CONSTANTS MaxClock, MaxWire, MaxMsgs, MaxCap      \* MaxCap: the cache may be enlarged up to this size (= N: never)
 VARIABLES nmsg,
           badFrom,   \* ghost (HTTP): requests whose OWN exchange delivered an unauthenticated or unparsable PDU
           ran        \* ghost (liveness): run has been called since the clock last advanced
@@ -32,6 +32,7 @@ MCNext == \/ (\E r \in NextReqs : Add(r, FreshId) /\ UNCHANGED <<nmsg, badFrom, 
           \/ (~Http /\ \E m \in {"ready", "notready", "noout", "hup", "err"} : SetPoll(m) /\ UNCHANGED <<nmsg, badFrom, ran>>)
           \/ (\E m \in {"ok", "fail"} : SetOpen(m) /\ UNCHANGED <<nmsg, badFrom, ran>>)
           \/ (clock < MaxClock /\ Tick(1) /\ UNCHANGED <<nmsg, badFrom, ran>>)
+          \/ (cap < MaxCap /\ Grow(cap + 1) /\ UNCHANGED <<nmsg, badFrom, ran>>)
 MCSpec == MCInit /\ [][MCNext]_<<vars, nmsg, badFrom, ran>>
 (* ---- liveness: "a request is never lost" as a temporal property.  Under weak fairness of Run and of the clock, every accepted request is     *)
 (* eventually handed back.  Requests are submitted only while clock <= AddUntil and the clock runs to MaxClock, which must leave room for every *)
@@ -56,7 +57,7 @@ EventuallyReturned == \A r \in Reqs : (st[r] \in Live) ~> (st[r] = "done")
 (* STRICT: expected to be violated when Http (finding F-C13-4) *)
 StrictOwnExchange == CauseOnOwnExchange(badFrom)
 (* the observation variable does not distinguish states *)
-View == <<st, id, addT, sndT, cause, sigok, sendq, respq, wire, conn, connT, rStart, rCount, peer, pollm, openm, clock, usedIds, ret, arrived, early, pushed, cfg, xdone, nmsg, badFrom, ran>>
+View == <<st, id, addT, sndT, cause, sigok, sendq, respq, wire, conn, connT, rStart, rCount, peer, pollm, openm, clock, usedIds, ret, arrived, early, pushed, cfg, cap, xdone, nmsg, badFrom, ran>>
 Dbg1 == ~(st[2] = "resp")
 Dbg3 == ~(st[2] = "sent")
 Dbg4 == ~(st[2] = "queued")
